@@ -23,9 +23,12 @@ class NoiseArray(np.ndarray):
             operand = np.array(other, dtype=float).copy()
             ev['operand'] = operand.flatten()
             ev['consumed'] = True
-            if tap.mode == 'replay':
-                released = np.array(tap.recorded[ev['index']]['released'], dtype=float).reshape(np.shape(operand))
+            rec = tap.recorded[ev['index']] if (tap.mode == 'replay' and ev['index'] < len(tap.recorded)) else None
+            if rec is not None and rec.get('released') is not None and np.size(rec['released']) == operand.size and rec['kind'] == ev['kind']:
+                released = np.array(rec['released'], dtype=float).reshape(np.shape(operand))
             else:
+                if tap.mode == 'replay' and tap.diverged is None:
+                    tap.diverged = ev['index']        # nothing comparable was released on D at this point
                 released = np.add(*plain)
             ev['released'] = np.array(released, dtype=float).flatten().copy()
             if out is not None:
